@@ -198,6 +198,10 @@ class C07(core.Check):
         "data is shallow but valid (|cross of the arms| 2e-5..6e-5, i.e. 200..600 TOL; exactly collinear ones stay at 0); revolve cases "
         "are inverted / mirrored / rotated about a non-parallel axis / moved after creation; curvemove cases move an end vertex of a "
         "curve-snapped edge along its curve between two outputs without re-assembly (oracle only). "
+        "Round 4: 12% of the asm cases lie at (5e5, 4.5e6, 2.5e5) (curve kind excluded there); 15% of the faces get "
+        "Face.remove_edges right after construction (no argument, None, [], [i], [i, j]); major-arc cases (one loft, faces as "
+        "given, Arc of more than 180 degrees with its point near the entry's first vertex); alias cases (a second loft made from "
+        "the same corner coordinates and the very same numpy float arrays, then Operation.translate in place). "
         "Non-trivial = at least one curved datum; distinct = different case."
     )
     assumptions = [
@@ -216,12 +220,15 @@ class C07(core.Check):
     )
 
     # ------------------------------------------------------------------ generators
-    def _lattice(self, rng: random.Random) -> List[List[Fr]]:
+    FAR = [Fr(500000), Fr(4500000), Fr(250000)]  # a georeferenced mesh: every coordinate is large compared with the blocks
+
+    def _lattice(self, rng: random.Random, far: bool = False) -> List[List[Fr]]:
         locs = []
+        off = self.FAR if far else [Fr(0)] * 3
         for k in range(3):
             for j in range(3):
                 for i in range(3):
-                    locs.append([Fr(i) + Fr(rng.randint(-2, 2), 16), Fr(j) + Fr(rng.randint(-2, 2), 16), Fr(k) + Fr(rng.randint(-2, 2), 16)])
+                    locs.append([off[0] + Fr(i) + Fr(rng.randint(-2, 2), 16), off[1] + Fr(j) + Fr(rng.randint(-2, 2), 16), off[2] + Fr(k) + Fr(rng.randint(-2, 2), 16)])
         return locs
 
     @staticmethod
@@ -333,7 +340,9 @@ class C07(core.Check):
         return ops
 
     def _asm_case(self, rng: random.Random) -> dict:
-        locs = self._lattice(rng)
+        far = rng.random() < 0.12  # the same blocks far from the origin (curve-snapped data excluded: scipy's parameter search loses accuracy there)
+        kinds = [k for k in KINDS if k != "curve"] if far else KINDS
+        locs = self._lattice(rng, far)
         pattern = rng.choice(["one", "face", "edge", "three", "same"])
         c0 = (rng.randint(0, 1), rng.randint(0, 1), rng.randint(0, 1))
         cells = [c0]
@@ -359,7 +368,7 @@ class C07(core.Check):
             if rng.random() < 0.12:  # wedge: corner 3 on corner 0, 7 on 4
                 corners[3], corners[7] = corners[0], corners[4]
             nd = rng.choice([0, 1, 2, 2, 3, 4, 6, 12])
-            slots = {s: rng.choice(KINDS) for s in rng.sample(range(12), nd)}
+            slots = {s: rng.choice(kinds) for s in rng.sample(range(12), nd)}
             if rng.random() < 0.5:
                 nb = rng.choice([0, 1, 1, 2, 3])
                 bops = self._fops(rng, corners[:4], nb)
@@ -373,8 +382,14 @@ class C07(core.Check):
             else:
                 bops, tops = [], []
             op, tag = self._mk_op(rng, locs, corners, slots, tag, bops, tops, invert=rng.random() < 0.2)
+            for key in ("bottom", "top"):
+                if rng.random() < 0.15:  # Face.remove_edges right after the face is made
+                    c1, c2 = rng.sample(range(4), 2)
+                    op[key]["remove"] = rng.choice(["noarg", "none", [], [], [], [c1], [c1, c2]])
             ops.append(op)
         case = {"kind": "asm", "locs": [frs(l) for l in locs], "ops": ops}
+        if far:
+            case["far"] = True
         if rng.random() < 0.35:  # the mesh is assembled again: Mesh.backport() or Mesh.clear() + assemble()
             case["history"] = rng.choice([["backport"], ["clear"], ["backport", "clear"], ["clear", "backport"]])
         return case
@@ -425,6 +440,58 @@ class C07(core.Check):
                 post.append(["translate", frs([Fr(rng.randint(-8, 8), 4) for _ in range(3)])])
         case["post"] = post
         return case
+
+    def _major_arc_case(self, rng: random.Random) -> dict:
+        """one loft, faces as given, with an Arc of more than 180 degrees whose point lies near the first vertex of
+        its entry (for a point beyond the antipode of the first vertex the library follows OpenFOAM's rule and
+        reports the minor arc: known finding of C08, kept out of these cases)"""
+        locs = self._lattice(rng)
+        corners = self._cell(0, 0, 0)
+        p = rng.choice(ROT24)
+        corners = [corners[p[i]] for i in range(8)]
+        s_ = rng.randrange(12)
+        op, _ = self._mk_op(rng, locs, corners, {s_: "arc"}, 0, [], [], collinear_p=0.0)
+        d = (op["bottom"]["edges"] + op["top"]["edges"] + op["side"])[s_]
+        A, B = locs[d["from"]], locs[d["to"]]
+        dp = vsub(B, A)
+        for _ in range(100):
+            w = self._bow(rng)
+            n_ = vcross(dp, w)
+            if vdot(n_, n_) * 16 >= vdot(dp, dp) * vdot(w, w):
+                break
+        u = vcross(n_, dp)  # perpendicular to the chord, length about |w| sin
+        d["p"] = frs(vadd(vsub(A, vmul(Fr(1, 4), dp)), vmul(Fr(1, 2), u)))  # "behind" the first vertex: a major arc
+        d["major"] = True
+        d.pop("shallow", None)
+        return {"kind": "asm", "locs": [frs(l) for l in locs], "ops": [op], "note": "major arc"}
+
+    def _alias_case(self, rng: random.Random) -> dict:
+        """two lofts: the second is made from the same corner coordinates and — for Spline / PolyLine — from the very
+        same numpy float arrays as the first, and is then moved with Operation.translate (in place)"""
+        base = self._lattice(rng)
+        v = [Fr(rng.choice([-3, 3, 4]), 1), Fr(rng.randint(-4, 4), 4), Fr(rng.choice([-5, 2, 5]), 2)]
+        locs = base + [vadd(l, v) for l in base]
+        corners = self._cell(rng.randint(0, 1), rng.randint(0, 1), rng.randint(0, 1))
+        p = rng.choice(ROT24)
+        corners = [corners[p[i]] for i in range(8)]
+        slots = {s_: rng.choice(["spline", "polyLine", "spline", "arc"]) for s_ in rng.sample(range(12), rng.choice([1, 2, 3, 5]))}
+        op1, ntag = self._mk_op(rng, base, corners, slots, 0, [], [], collinear_p=0.0)
+        import copy
+
+        op2 = copy.deepcopy(op1)
+        for key in ("bottom", "top"):
+            op2[key]["pts"] = [l + 27 for l in op2[key]["pts"]]
+        for d in op2["bottom"]["edges"] + op2["top"]["edges"] + op2["side"]:
+            if d is not None:
+                d["alias_of"] = d["tag"]
+                d["tag"] += ntag
+                d["from"] += 27
+                d["to"] += 27
+                if "pts" in d:
+                    d["pts"] = [frs(vadd(unfrs(q), v)) for q in d["pts"]]
+                if "p" in d:
+                    d["p"] = frs(vadd(unfrs(d["p"]), v))
+        return {"kind": "asm", "locs": [frs(l) for l in locs], "ops": [op1, op2], "alias": {"v": frs(v)}}
 
     def _curvemove_case(self, rng: random.Random, s_: Optional[int] = None) -> dict:
         """one loft with a curve-snapped edge; after the first output one or two of its end vertices are moved
@@ -485,6 +552,8 @@ class C07(core.Check):
         cases += [self._face_case(rng) for _ in range(n // 4)]
         cases += [self._revolve_case(rng) for _ in range(n // 8)]
         cases += [self._curvemove_case(rng) for _ in range(n // 16)]
+        cases += [self._major_arc_case(rng) for _ in range(n // 16)]
+        cases += [self._alias_case(rng) for _ in range(n // 16)]
         # angle arcs of either sign on every position, as given and on an inverted face, once assembled again
         for sgn in (-1, 1):
             for s_, use in ((0, []), (3, []), (5, [["invert"]]), (7, []), (10, [["invert"]])):
@@ -512,10 +581,27 @@ class C07(core.Check):
 
     # ------------------------------------------------------------------ implementation
     @staticmethod
-    def _make(cb, d: Optional[dict], objs: dict):
+    def _make(cb, d: Optional[dict], objs: dict, arrays: Optional[dict] = None, shift=None):
+        """`arrays`: curve points are handed over as numpy float arrays, kept by tag; a datum with `alias_of` re-uses
+        the array of that tag (and is described at the place before the later translation by `shift`)"""
         if d is None:
             return None
+        if shift is not None:  # the payload as the user gives it, before the operation is moved
+            d = dict(d)
+            for key in ("p", "o"):
+                if key in d:
+                    d[key] = frs(vsub(unfrs(d[key]), shift))
         k = d["k"]
+        if arrays is not None and k in ("spline", "polyLine"):
+            import numpy as np
+
+            if "alias_of" in d:
+                arr = arrays[d["alias_of"]]
+            else:
+                arr = arrays[d["tag"]] = np.array([fl(unfrs(p)) for p in d["pts"]], dtype=float)
+            o = (cb.Spline if k == "spline" else cb.PolyLine)(arr)
+            objs[id(o)] = (d["tag"], o)
+            return o
         if k == "arc":
             o = cb.Arc(fl(unfrs(d["p"])))
         elif k == "origin":
@@ -549,6 +635,18 @@ class C07(core.Check):
                 p = pos[op[1]]
                 # a position clearly nearest to that corner
                 face.reorient([p[0] + 1 / 64, p[1] - 1 / 64, p[2] + 1 / 128])
+
+    def _build_face(self, cb, f: dict, pos, objs, arrays=None, shift=None, unshift=0):
+        face = cb.Face([pos[l - unshift] for l in f["pts"]], [self._make(cb, d, objs, arrays, shift) for d in f["edges"]])
+        rm = f.get("remove")
+        if rm == "noarg":
+            face.remove_edges()
+        elif rm == "none":
+            face.remove_edges(None)
+        elif rm is not None:
+            face.remove_edges(list(rm))
+        self._apply_fops(face, f["fops"], pos)
+        return face
 
     def run_impl(self, case: dict) -> Any:
         warnings.simplefilter("ignore")
@@ -586,11 +684,7 @@ class C07(core.Check):
         if case["kind"] == "curvemove":
             op = case["op"]
             faces = []
-            for key in ("bottom", "top"):
-                f = op[key]
-                face = cb.Face([pos[l] for l in f["pts"]], [self._make(cb, d, objs) for d in f["edges"]])
-                self._apply_fops(face, f["fops"], pos)
-                faces.append(face)
+            faces = [self._build_face(cb, op[key], pos, objs) for key in ("bottom", "top")]
             loft = cb.Loft(faces[0], faces[1])
             for i, d in enumerate(op["side"]):
                 if d is not None:
@@ -676,22 +770,25 @@ class C07(core.Check):
 
         mesh = cb.Mesh()
         side_ends = []
-        for op in case["ops"]:
-            faces = []
-            for key in ("bottom", "top"):
-                f = op[key]
-                face = cb.Face([pos[l] for l in f["pts"]], [self._make(cb, d, objs) for d in f["edges"]])
-                self._apply_fops(face, f["fops"], pos)
-                faces.append(face)
+        alias = case.get("alias")
+        arrays: Optional[dict] = {} if alias else None
+        for n_op, op in enumerate(case["ops"]):
+            # the second operation of an alias case is made where the first one is, from the same arrays, and moved
+            moved = alias is not None and n_op == 1
+            shift = unfrs(alias["v"]) if moved else None
+            unshift = 27 if moved else 0
+            faces = [self._build_face(cb, op[key], pos, objs, arrays, shift, unshift) for key in ("bottom", "top")]
             loft = cb.Loft(faces[0], faces[1])
             for i, d in enumerate(op["side"]):
                 if d is not None:
                     a = loc_of.get(tuple(float(x) for x in loft.bottom_face.points[i].position), -1)
                     b = loc_of.get(tuple(float(x) for x in loft.top_face.points[i].position), -1)
-                    side_ends.append([d["tag"], a, b])
-                    loft.add_side_edge(i, self._make(cb, d, objs))
+                    side_ends.append([d["tag"], a + unshift, b + unshift])
+                    loft.add_side_edge(i, self._make(cb, d, objs, arrays, shift))
             if op.get("invert"):
                 loft.invert()
+            if moved:
+                loft.translate(fl(shift))
             mesh.add(loft)
         mesh.assemble()
 
@@ -793,7 +890,9 @@ class C07(core.Check):
             else:
                 p = fl(unfrs(locs[op[1]]))
                 ops.append("reorient:" + self._v3([p[0] + 1 / 64, p[1] - 1 / 64, p[2] + 1 / 128]))
-        return ".".join(map(str, f["pts"])) + "@" + ";".join(self._datum_req(d, locs) for d in f["edges"]) + "@" + "+".join(ops)
+        rm = f.get("remove")
+        tail = "" if rm is None else "@rm" + ("A" if rm in ("noarg", "none") else "".join(map(str, rm)))
+        return ".".join(map(str, f["pts"])) + "@" + ";".join(self._datum_req(d, locs) for d in f["edges"]) + "@" + "+".join(ops) + tail
 
     def requests(self, case: dict, impl: Any) -> List[str]:
         if case["kind"] == "revolve":
@@ -890,11 +989,15 @@ class C07(core.Check):
         for n, op in enumerate(case["ops"]):
             for key in ("bottom", "top"):
                 f = op[key]
+                rm = f.get("remove")
+                gone = set(range(4)) if rm in ("noarg", "none") else set(rm or [])  # what the user asked to remove
                 for i, d in enumerate(f["edges"]):
-                    if d is not None:
+                    if d is not None and i not in gone:
                         inv = sum(1 for o in f["fops"] if o[0] == "invert") % 2
                         moved = any(o[0] != "invert" for o in f["fops"])
                         cls = "inverted-face" if inv else ("shifted-face" if moved else ("closing-edge" if i == 3 else "face-edge"))
+                        if "remove" in f:
+                            cls += "-kept-by-remove_edges"
                         out.append({"d": d, "op": n, "cls": cls, "a": f["pts"][i], "b": f["pts"][(i + 1) % 4]})
             for i, d in enumerate(op["side"]):
                 if d is not None:
@@ -953,8 +1056,10 @@ class C07(core.Check):
         if -1 in V or len(set(V)) != len(V):
             return []  # vertex numbering is C05's subject; nothing can be said here
 
+        ctx = (":far-from-origin" if case.get("far") else "") + (":arrays-shared-then-translated" if case.get("alias") else "")
+
         def viol(site, what, obs=None, exp=None):
-            out.append({"site": site, "what": what, "observed": obs, "expected": exp})
+            out.append({"site": site + ctx, "what": what, "observed": obs, "expected": exp})
 
         # the side data were described for the end points the operation showed at that moment
         claimed = {x["d"]["tag"]: (x["a"], x["b"]) for x in self._described(case) if x["cls"].startswith("side-edge")}
@@ -1018,7 +1123,8 @@ class C07(core.Check):
                     viol(f"Edge.is_valid:{why}-written", f"entry {w['kind']} {w['v1']} {w['v2']} for data {[x['d'] for x in xs]}")
                 continue
             if pair not in entry_of:
-                viol(f"EdgeList.add:valid-edge-missing:{valid[0]['d']['k']}", f"no entry for {valid[0]['d']} (locations {sorted(pair)})", impl["text"])
+                kept = ":kept-by-remove_edges" if "remove_edges" in valid[0]["cls"] else ""
+                viol(f"EdgeList.add:valid-edge-missing:{valid[0]['d']['k']}{kept}", f"no entry for {valid[0]['d']} (locations {sorted(pair)})", impl["text"])
                 continue
             w, e = entry_of[pair]
             problems = []
@@ -1056,7 +1162,7 @@ class C07(core.Check):
                     w, e = entry_of[pair]
                     x = next(x for x in by_pair[pair] if self._valid(x) and self._match(x, w, e, V, pos, locs) is None)
                     exp, tol = self._expected_length(x, locs)
-                    site = f"Edge.length:{x['cls']}:{x['d']['k']}"
+                    site = f"Edge.length:{x['cls']}:{x['d']['k']}" + (":major-arc" if x["d"].get("major") else "")
                     first = min(y["op"] for y in by_pair[pair] if self._valid(y))
                     wedge = len(set(impl["B"][n])) < 8
                     if wire["length"] is not None and (first > n or (first == n and wedge)) and abs(wire["length"] - chord) <= 1e-9 * max(1.0, chord) and not wire["listed"]:
@@ -1307,9 +1413,11 @@ class C07(core.Check):
             return "revolve:" + ("negative" if Fr(case["angle"]) < 0 else "positive") + (":" + "+".join(t[0] for t in case["post"]) if case.get("post") else "") + (":reassembled" if case.get("history") else "")
         if case["kind"] == "face":
             return "face:" + "+".join(sorted({o[0] for o in case["face"]["fops"]}))
-        uses = sorted({{"inverted-face": "inverted", "shifted-face": "shifted"}.get(x["cls"], "given") for x in self._described(case)})
+        uses = sorted({{"inverted-face": "inverted", "shifted-face": "shifted"}.get(x["cls"].split("-kept")[0], "given") for x in self._described(case)})
         wedge = any(len(set(op["bottom"]["pts"])) < 4 for op in case["ops"])
-        return f"asm:{len(case['ops'])}op:" + ("+".join(uses) or "no-data") + (":wedge" if wedge else "") + (":reassembled" if case.get("history") else "")
+        extra = (":far" if case.get("far") else "") + (":alias" if case.get("alias") else "") + (":major-arc" if case.get("note") == "major arc" else "")
+        extra += ":remove_edges" if any("remove" in op[k] for op in case["ops"] for k in ("bottom", "top")) else ""
+        return f"asm:{len(case['ops'])}op:" + ("+".join(uses) or "no-data") + (":wedge" if wedge else "") + (":reassembled" if case.get("history") else "") + extra
 
     def static_checks(self) -> List[str]:
         """the direction table the model computes from the generated tables, against the convention"""
